@@ -90,6 +90,12 @@ fn crypto_kx(
     server_pk: &PublicKey,
     mut shared_secret: [u8; CRYPTO_SCALARMULT_BYTES],
 ) -> Result<(), Error> {
+    // refuse low-order peer keys: their shared secret is all-zero whatever our
+    // secret key is (libsodium's crypto_scalarmult reports an error for these)
+    if shared_secret.iter().fold(0u8, |acc, b| acc | b) == 0 {
+        return Err(dryoc_error!("key exchange failed: all-zero shared secret"));
+    }
+
     let mut keys = [0u8; 2 * CRYPTO_KX_SESSIONKEYBYTES];
 
     let mut hasher = crypto_generichash_init(None, 2 * CRYPTO_KX_SESSIONKEYBYTES)?;
